@@ -101,7 +101,7 @@ fn block_in(p: Prim, s: &Shared, who: &AtomicU32, rx1: Option<&mpsc::Receiver<u3
     }
 }
 
-fn run(e: &'static Engine, workers: usize, p: Prim, bystander: bool, cancel: bool) {
+fn run(e: &'static Engine, workers: usize, p: Prim, bystander: bool, cancel: bool, event: bool) {
     rt_init(workers);
     let s = Arc::new(Shared { m: Mutex::new(0), sem: Semphore::new(0), cv: Condvar::new(), cvm: Mutex::new(false), rw: RwLock::new(0), flag: SyncFlag::new() });
     let (tx1, rx1) = mpsc::channel::<u32>();
@@ -134,12 +134,23 @@ fn run(e: &'static Engine, workers: usize, p: Prim, bystander: bool, cancel: boo
     };
     drop(rx2);
     let pre_done = LAST_RETURNED.load(Ordering::SeqCst);
+    let mut t = Some(t);
     if cancel {
-        unsafe { t.coroutine().cancel() };
+        unsafe { t.as_ref().unwrap().coroutine().cancel() };
+    }
+    // without `event` the cancel is the only thing that can end the target's wait: a lost cancel hangs the join;
+    // what the others need is released only after the target has been joined
+    let mut early: Option<Result<u32, Box<dyn std::any::Any + Send>>> = None;
+    if !event {
+        early = Some(t.take().unwrap().join());
     }
     // the awaited events, enough for the target and the bystander
     match p {
-        Prim::Park => t.coroutine().unpark(),
+        Prim::Park => {
+            if let Some(t) = t.as_ref() {
+                t.coroutine().unpark()
+            }
+        }
         Prim::Mutex => drop(mg),
         Prim::RwRead | Prim::RwWrite => drop(rg),
         Prim::Sem => {
@@ -161,7 +172,11 @@ fn run(e: &'static Engine, workers: usize, p: Prim, bystander: bool, cancel: boo
         Prim::Sleep | Prim::Join | Prim::Yield => {}
     }
     let mut out = String::new();
-    match t.join() {
+    let tres = match early {
+        Some(r) => r,
+        None => t.take().unwrap().join(),
+    };
+    match tres {
         Ok(7) => {
             if cancel && !pre_done {
                 e.fail("cancel_ignored", "the target returned normally although it was cancelled before its last blocking call had returned");
@@ -254,12 +269,18 @@ pub fn build(quick: bool) -> Vec<Scenario> {
             (Prim::MpmcRecv, true),
             (Prim::Join, false),
         ] {
-            v.push(Scenario::new("C09", "cancel", format!("cancel.{:?}.w{}", p, w).to_lowercase(), Arc::new(move |e| run(e, w, p, by, true))).t2());
+            v.push(Scenario::new("C09", "cancel", format!("cancel.{:?}.w{}", p, w).to_lowercase(), Arc::new(move |e| run(e, w, p, by, true, true))).t2());
+        }
+    }
+    // the cancel is the only wake-up the target ever gets
+    for w in [1usize, 2] {
+        for p in [Prim::Park, Prim::Mutex, Prim::Sem, Prim::Condvar, Prim::RwWrite, Prim::Flag, Prim::MpscRecv, Prim::MpmcRecv] {
+            v.push(Scenario::new("C09", "cancel_only", format!("cancel_only.{:?}.w{}", p, w).to_lowercase(), Arc::new(move |e| run(e, w, p, false, true, false))));
         }
     }
     // never cancelled: nobody observes a cancellation
     for p in [Prim::Mutex, Prim::Sem, Prim::MpmcRecv] {
-        v.push(Scenario::new("C09", "no_cancel", format!("nocancel.{:?}.w2", p).to_lowercase(), Arc::new(move |e| run(e, 2, p, true, false))));
+        v.push(Scenario::new("C09", "no_cancel", format!("nocancel.{:?}.w2", p).to_lowercase(), Arc::new(move |e| run(e, 2, p, true, false, true))));
     }
     v.into_iter().map(|s| s.tier(quick).vt_horizon(100_000_000).horizon(6_000)).collect()
 }
